@@ -1,6 +1,7 @@
 import Verif.Props.C07
 import Verif.Props.C06
 import Verif.Generated.Flow
+import Verif.Facts.MemClear
 /-
   C08 — Each test case starts from the same machine.
   The statements of `snapshotCpuProvider.NewCpu`, `newSnapshotProvider` and `CPU6502.Reset` are regenerated
@@ -18,22 +19,60 @@ def newCpuNow (k : MemKind) (trap : Bool) (m : CaseMachine) : CaseMachine :=
 def providerNow (k : MemKind) (trap : Bool) (m : CaseMachine) : CaseMachine :=
   runProv (cfgNow k) resetSteps trap newSnapshotProviderSteps m
 
-/-- what NewCpu does, in closed form -/
-theorem newCpu_shape (k : MemKind) (trap : Bool) (m : CaseMachine) :
-    newCpuNow k trap m =
-      { regs := resetRegs, cycles := 0,
-        mem := applyOp (cfgNow k) (applyOp (cfgNow k) m.mem .restore) .clear,
-        handler := m.handler && !trap, poisoned := m.poisoned } := by
-  cases trap <;>
-    simp [newCpuNow, runProv, snapshotNewCpuSteps, resetSteps, provStep, runReset, resetStep, List.foldl, resetRegs]
+/-- What NewCpu does.  Stated as properties of the result, not as a closed form, so that the proof does not
+    depend on the ORDER of the statements of NewCpu and Reset (restoring before or after resetting, the
+    registers in any order): registers reset, cycle counter zero, handler cleared when a placeholder exists,
+    every cell of every region holds the snapshot's byte and a zero counter, the snapshot itself untouched. -/
+structure NewCpuOk (k : MemKind) (trap : Bool) (m s : CaseMachine) : Prop where
+  regs : s.regs = resetRegs
+  cycles : s.cycles = 0
+  handler : s.handler = (m.handler && !trap)
+  poisoned : s.poisoned = m.poisoned
+  data : ∀ c : Cell, c.1 ∈ regionsOf k → s.mem.data c = m.mem.snap c
+  stat : ∀ c : Cell, c.1 ∈ regionsOf k → s.mem.stat c = 0
+  snap : s.mem.snap = m.mem.snap
 
-theorem provider_shape (k : MemKind) (trap : Bool) (m : CaseMachine) :
-    providerNow k trap m =
-      { regs := resetRegs, cycles := 0,
-        mem := applyOp (cfgNow k) (applyOp (cfgNow k) m.mem .clear) .snap,
-        handler := m.handler, poisoned := m.poisoned } := by
-  cases trap <;>
-    simp [providerNow, runProv, newSnapshotProviderSteps, resetSteps, provStep, runReset, resetStep, List.foldl, resetRegs]
+theorem newCpu_ok (k : MemKind) (trap : Bool) (m : CaseMachine) : NewCpuOk k trap m (newCpuNow k trap m) := by
+  have hsnap := fun (c : Cell) (hc : c.1 ∈ regionsOf k) => (snapshot_covers k c.1 hc).2
+  have hclr := fun (c : Cell) (hc : c.1 ∈ regionsOf k) => clear_covers k c.1 hc
+  constructor
+  · cases trap <;>
+      simp [newCpuNow, runProv, snapshotNewCpuSteps, resetSteps, provStep, runReset, resetStep, List.foldl, resetRegs]
+  · cases trap <;>
+      simp [newCpuNow, runProv, snapshotNewCpuSteps, resetSteps, provStep, runReset, resetStep, List.foldl]
+  · cases trap <;>
+      simp [newCpuNow, runProv, snapshotNewCpuSteps, resetSteps, provStep, runReset, resetStep, List.foldl]
+  · cases trap <;>
+      simp [newCpuNow, runProv, snapshotNewCpuSteps, resetSteps, provStep, runReset, resetStep, List.foldl]
+  · intro c hc
+    cases trap <;>
+      simp [newCpuNow, runProv, snapshotNewCpuSteps, resetSteps, provStep, runReset, resetStep, List.foldl,
+        applyOp, restoreSnapshot, clearStatistics, hsnap c hc]
+  · intro c hc
+    cases trap <;>
+      simp [newCpuNow, runProv, snapshotNewCpuSteps, resetSteps, provStep, runReset, resetStep, List.foldl,
+        applyOp, restoreSnapshot, clearStatistics, hclr c hc]
+  · cases trap <;>
+      simp [newCpuNow, runProv, snapshotNewCpuSteps, resetSteps, provStep, runReset, resetStep, List.foldl,
+        applyOp, restoreSnapshot, clearStatistics]
+
+/-- creation of the provider: the snapshot holds the image the setup left, in every region -/
+structure ProviderOk (k : MemKind) (m s : CaseMachine) : Prop where
+  handler : s.handler = m.handler
+  poisoned : s.poisoned = m.poisoned
+  snap : ∀ c : Cell, c.1 ∈ regionsOf k → s.mem.snap c = m.mem.data c
+
+theorem provider_ok (k : MemKind) (trap : Bool) (m : CaseMachine) : ProviderOk k m (providerNow k trap m) := by
+  have htake := fun (c : Cell) (hc : c.1 ∈ regionsOf k) => (snapshot_covers k c.1 hc).1
+  constructor
+  · cases trap <;>
+      simp [providerNow, runProv, newSnapshotProviderSteps, resetSteps, provStep, runReset, resetStep, List.foldl]
+  · cases trap <;>
+      simp [providerNow, runProv, newSnapshotProviderSteps, resetSteps, provStep, runReset, resetStep, List.foldl]
+  · intro c hc
+    cases trap <;>
+      simp [providerNow, runProv, newSnapshotProviderSteps, resetSteps, provStep, runReset, resetStep, List.foldl,
+        applyOp, takeSnapshot, clearStatistics, htake c hc]
 
 /-- the machine every case must be given: reset registers, zero cycles, no trap handler, the memory image
     (every cell of every region, banking registers and LUTs included) the setup left, all counters zero -/
@@ -46,25 +85,19 @@ def Inv (k : MemKind) (trap : Bool) (setup : CaseMachine) (m : CaseMachine) : Pr
   m.poisoned = false ∧ (m.handler = true → trap = true) ∧
   ∀ c : Cell, c.1 ∈ regionsOf k → m.mem.snap c = setup.mem.data c
 
-theorem clear_data (cfg : MemCfg) (s : MemState) : (applyOp cfg s .clear).data = s.data := rfl
-theorem clear_snap (cfg : MemCfg) (s : MemState) : (applyOp cfg s .clear).snap = s.snap := rfl
-theorem restore_snap (cfg : MemCfg) (s : MemState) : (applyOp cfg s .restore).snap = s.snap := rfl
-
 theorem newCpu_pristine (k : MemKind) (trap : Bool) (setup m : CaseMachine) (h : Inv k trap setup m) :
     Pristine k setup (newCpuNow k trap m) ∧ Inv k trap setup (newCpuNow k trap m) := by
   obtain ⟨hp, hh, hs⟩ := h
-  rw [newCpu_shape]
-  refine ⟨⟨rfl, rfl, ?_, hp, ?_⟩, hp, ?_, ?_⟩
-  · cases ht : trap <;> cases hm : m.handler <;> simp_all
+  have ok := newCpu_ok k trap m
+  have hhandler : (newCpuNow k trap m).handler = false := by
+    rw [ok.handler]
+    cases ht : trap <;> cases hm : m.handler <;> simp_all
+  refine ⟨⟨ok.regs, ok.cycles, hhandler, ok.poisoned.trans hp, ?_⟩, ok.poisoned.trans hp, ?_, ?_⟩
   · intro c hc
-    refine ⟨?_, Verif.Props.C06.C06_clear_total k _ c hc⟩
-    rw [clear_data]
-    have hcov := snapshot_covers k c.1 hc
-    simp only [applyOp, restoreSnapshot, hcov.2, if_true]
-    exact hs c hc
-  · cases ht : trap <;> cases hm : m.handler <;> simp_all
+    exact ⟨(ok.data c hc).trans (hs c hc), ok.stat c hc⟩
+  · intro h; rw [hhandler] at h; cases h
   · intro c hc
-    rw [clear_snap, restore_snap]
+    rw [ok.snap]
     exact hs c hc
 
 theorem body_inv (k : MemKind) (trap : Bool) (setup m : CaseMachine) (b : Body) (h : Inv k trap setup m) :
@@ -98,12 +131,9 @@ theorem starts_pristine (k : MemKind) (trap : Bool) (setup : CaseMachine) :
 theorem provider_inv (k : MemKind) (trap : Bool) (setup : CaseMachine)
     (h1 : setup.poisoned = false) (h2 : setup.handler = false) :
     Inv k trap setup (providerNow k trap setup) := by
-  rw [provider_shape]
-  refine ⟨h1, ?_, ?_⟩
-  · intro h; simp [h2] at h
-  · intro c hc
-    have hcov := snapshot_covers k c.1 hc
-    simp [applyOp, takeSnapshot, clearStatistics, hcov.1]
+  have ok := provider_ok k trap setup
+  refine ⟨ok.poisoned.trans h1, ?_, ok.snap⟩
+  intro h; rw [ok.handler, h2] at h; cases h
 
 /-- C08 (with `-prexec`): whatever the setup program left behind, and whatever the cases of the suite do —
     any memory history through both views, bank switches, LUT edits, any register values, cycle counts,
@@ -156,7 +186,7 @@ theorem C08_fresh (fresh : CaseMachine) (cfg : MemCfg) (trap : Bool) (bodies : L
 
 /-- the statements of Reset and of the provider all have a meaning in the model (none is `unknown`) -/
 theorem C08_no_unknown (k : MemKind) (trap : Bool) (m : CaseMachine) :
-    (newCpuNow k trap m).poisoned = m.poisoned ∧ (providerNow k trap m).poisoned = m.poisoned := by
-  rw [newCpu_shape, provider_shape]; exact ⟨rfl, rfl⟩
+    (newCpuNow k trap m).poisoned = m.poisoned ∧ (providerNow k trap m).poisoned = m.poisoned :=
+  ⟨(newCpu_ok k trap m).poisoned, (provider_ok k trap m).poisoned⟩
 
 end Verif.Props.C08
